@@ -141,6 +141,9 @@ func (w *World) GenVC(fn *ssa.Function, ct *Contract, opts ...func(*Engine)) (re
 			for _, a := range c2.Assigns {
 				for _, t := range e.assignTargets(ctx, a) {
 					allowed = append(allowed, target{t.ref, t.kind})
+					if t.kind == "wstream" {
+						e.wstreamKeys = append(e.wstreamKeys, t.ref)
+					}
 				}
 			}
 		}
